@@ -80,6 +80,18 @@ def run(ctx):
     y2(ctx, F, D)
     y3(ctx, F)
     y3_show(ctx, F)
+    # the `Fen:` line is Game::fen(): its fields must describe the game (writer rules of C11)
+    from . import p11
+    before, nv = len(ctx.instances), len(ctx.violations)
+    p11._FACTS[0] = F
+    em, _sym = emissions(F.fn(p11.WRITER), F, recv="result")
+    p11.writer_board(ctx, F, em)
+    p11.writer_fields(ctx, F, em)
+    for i in ctx.instances[before:]:
+        i["rule"] = "C20.Y3(" + i["rule"] + ")"
+    for v in ctx.violations[nv:]:
+        v["rule"] = "C20.Y3(" + v["rule"] + ")"
+        v["key"] = "C20.Y3|" + v["key"]
     y4(ctx, F, D)
     y5(ctx, F)
 
